@@ -73,8 +73,90 @@ Definition c09_given_away (reswait : bool) (pre : ostate) (st : ostep) : list N 
       else [907]
     else []) (sched_bindings st).
 
+(* ---- correspondence: rebuild the step from the model's writers and compare the four views ---- *)
+Definition opt_bind {A B} (o : option A) (f : A -> option B) : option B :=
+  match o with Some x => f x | None => None end.
+Fixpoint run_ops (v : option rview) (ops : list rop) : option rview :=
+  match ops with [] => v | o :: t => run_ops (opt_bind v (fun x => rstep x o)) t end.
+
+Definition has_ask (v : rview) (a k : N) : bool := match find_ask v a k with Some _ => true | None => false end.
+Definition ask_alloc (v : rview) (a k : N) : bool := match find_ask v a k with Some x => ra_allocated x | None => false end.
+
+(* scheduling decisions of the step: normal / reserved allocations and decided swaps *)
+Definition sched_allocs (st : ostep) : list rres :=
+  flat_map (fun e => match e with ENewAlloc k a n _ _ => [mkR a k n] | _ => [] end) (st_events st).
+Definition sched_swaps (st : ostep) : list (N * N) :=
+  flat_map (fun e =>
+    match e with
+    | ERelease phk a ty =>
+        if ty =? TT_PlaceholderReplaced then
+          match find_app (st_obs st) a with
+          | Some ap => match find_alloc (ap_allocs ap) phk with
+                       | Some ph => if oa_release ph =? 0 then [] else [(a, oa_release ph)]
+                       | None => [] end
+          | None => [] end
+        else []
+    | _ => []
+    end) (st_events st).
+
+Definition c09_sched_ops (V V' : rview) (st : ostep) : list rop :=
+  let allocs := sched_allocs st in
+  let swaps := sched_swaps st in
+  let removed := filter (fun x => negb (memR x (rv_app V'))) (rv_app V) in
+  let added := filter (fun x => negb (memR x (rv_app V))) (rv_app V') in
+  let bound (x : rres) := existsb (is_res (r_app x) (r_key x)) allocs ||
+                          existsb (fun p => (fst p =? r_app x) && (snd p =? r_key x)) swaps in
+  (* a required-node ask acted on node n in this cycle *)
+  let req_on (n : N) := existsb (fun b => ask_req V (r_app b) (r_key b) =? n) allocs ||
+                        existsb (fun b => ask_req V' (r_app b) (r_key b) =? n) added in
+  let cancelled := filter (fun x => negb (bound x) && outstanding V (r_app x) (r_key x)) removed in
+  let stale := filter (fun x => negb (bound x) && negb (outstanding V (r_app x) (r_key x))) removed in
+  let req_nodes := nodup N.eq_dec (map r_node (filter (fun x => req_on (r_node x)) cancelled)) in
+  map (fun n => RCancelRequired n true) req_nodes ++
+  map (fun x => RCancel (r_app x) (r_key x)) (filter (fun x => negb (req_on (r_node x))) cancelled) ++
+  map (fun x => RUnreserve (r_app x) (r_key x)) stale ++
+  map (fun x => RAllocate (r_app x) (r_key x) (r_node x)) allocs ++
+  map (fun p => RAllocateKeep (fst p) (snd p)) swaps ++
+  map (fun x => RReserve (r_app x) (r_key x) (r_node x) true) added.
+
+Definition c09_ops (pre : ostate) (st : ostep) : list rop :=
+  let V := proj09 pre in let V' := proj09 (st_obs st) in
+  let sched := is_sched (st_op st) in
+  let new_asks := filter (fun y => negb (has_ask V (ra_app y) (ra_key y))) (rv_asks V') in
+  let gone_asks := filter (fun y => negb (has_ask V' (ra_app y) (ra_key y))) (rv_asks V) in
+  let decided (y : rask) := sched && (existsb (is_res (ra_app y) (ra_key y)) (sched_allocs st) ||
+                                      existsb (fun p => (fst p =? ra_app y) && (snd p =? ra_key y)) (sched_swaps st)) in
+  map RAddNode (filter (fun n => negb (memN n (rv_nodes V))) (rv_nodes V')) ++
+  map RAddApp (filter (fun a => negb (memN a (rv_apps V))) (rv_apps V')) ++
+  flat_map (fun y => RAddAsk (ra_app y) (ra_key y) (ra_req y) ::
+                     (if ra_allocated y then [RAllocateKeep (ra_app y) (ra_key y)] else [])) new_asks ++
+  (if sched then c09_sched_ops V V' st else []) ++
+  (match st_op st with OpNodeRemove n => if memN n (rv_nodes V') then [] else [RRemoveNode n] | _ => [] end) ++
+  flat_map (fun y =>
+     if has_ask V (ra_app y) (ra_key y) && negb (decided y) then
+       if ra_allocated y && negb (ask_alloc V (ra_app y) (ra_key y)) then [RAllocateKeep (ra_app y) (ra_key y)]
+       else if negb (ra_allocated y) && ask_alloc V (ra_app y) (ra_key y) then [RDeallocate (ra_app y) (ra_key y)]
+       else []
+     else []) (rv_asks V') ++
+  map (fun y => RRemoveAsk (ra_app y) (ra_key y)) gone_asks ++
+  map RTerminate (filter (fun a => negb (memN a (rv_apps V'))) (rv_apps V)).
+
+Definition sub_q (a b : list (N * N)) : bool :=
+  forallb (fun x => existsb (fun y => (fst x =? fst y) && (snd x =? snd y)) b) a.
+Definition views_same (M V' : rview) : bool :=
+  subR (rv_app M) (rv_app V') && subR (rv_app V') (rv_app M) &&
+  subR (rv_node M) (rv_node V') && subR (rv_node V') (rv_node M) &&
+  sub_q (rv_queue M) (rv_queue V') && sub_q (rv_queue V') (rv_queue M) &&
+  (rv_part M =? rv_part V')%Z.
+
+Definition c09_corr (pre : ostate) (st : ostep) : list N :=
+  match run_ops (Some (proj09 pre)) (c09_ops pre st) with
+  | None => [990]
+  | Some M => if views_same M (proj09 (st_obs st)) then [] else [990]
+  end.
+
 Definition c09_step (reswait : bool) (pre : ostate) (st : ostep) : list N :=
-  c09_state (st_obs st) ++ c09_given_away reswait pre st.
+  c09_state (st_obs st) ++ c09_given_away reswait pre st ++ c09_corr pre st.
 
 Fixpoint indexed {A} (i : N) (l : list A) : list (N * A) :=
   match l with [] => [] | a :: t => (i, a) :: indexed (i + 1) t end.
